@@ -193,11 +193,17 @@ def completed_records_kept(ctx):
     cg = CallGraph(repo)
     called = {h for outs in cg.edges.values() for h in outs}
     n = 0
+    n_any = [0]
     for name, m in RS.methods.items():
         for x in ast.walk(m.node):
             if not (isinstance(x, ast.Subscript) and isinstance(x.ctx, ast.Store)):
                 continue
             sl = x.slice
+            n_any[0] += 1
+            if isinstance(sl, ast.Name):            # `column = (slice(None), self.step); buffer[column] = value`
+                from ..dataflow import assignments
+                defs = [v for _, v in assignments(m.node).get(sl.id, []) if v is not None]
+                sl = defs[0] if len(defs) == 1 else sl
             col = sl.elts[1] if isinstance(sl, ast.Tuple) and len(sl.elts) == 2 else None
             if col is None:
                 continue
@@ -212,8 +218,10 @@ def completed_records_kept(ctx):
                    consequence="a per-step record (dt, probe potentials and phases, screening iterations) of a completed step is erased: the frame written next has a "
                                "hole (dt = 0 is dropped by the reader as padding), the frame time no longer equals the sum of the recorded steps and "
                                "Solution.times disagrees with the frame labels")
+    if n < 1 and n_any[0] < 1:
+        raise AnalysisError("no element store found in RunningState (append writes `values[name][:, self.step]` today)")
     if n < 1:
-        raise AnalysisError("no column store found in RunningState (append writes `values[name][:, self.step]` today)")
+        ctx.ob("R05.13", "no method of RunningState addresses a single column by `cursor - k`", True, where=RS.fq, construct="column stores of RunningState")
 
 
 def check(ctx):
